@@ -97,12 +97,13 @@ Lemma w_moniker :
   itx_verify repaired (mkItx g_hex s_plain s_fffd s_one true) = Err.
 Proof. vm_compute. repeat split. Qed.
 
-Definition no_panic_statement (fx : fixes) : Prop := forall st c, safe (fst (handle fx st c)).
+Definition no_panic_statement (fx : fixes) : Prop :=
+  forall st c, ns_locked st = false -> safe (fst (handle fx st c)).
 
 (* the no-panic statement is FALSE of the code as it is *)
 Lemma no_panic_asis_refuted : ~ no_panic_statement asis.
 Proof.
-  intros H. destruct (H st_suspended (CSync (-1))) as [Hp _]. apply Hp. vm_compute. reflexivity.
+  intros H. destruct (H st_suspended (CSync (-1) false) eq_refl) as [Hp _]. apply Hp. vm_compute. reflexivity.
 Qed.
 
 Definition blocks_unchanged_statement (fx : fixes) : Prop := forall st c o st',
@@ -113,14 +114,14 @@ Definition blocks_unchanged_statement (fx : fixes) : Prop := forall st c o st',
 (* 12. a REJECTED fast-forward response replaces the application state (snapshot 99) ... *)
 Lemma w_restore_before_check :
   handle asis st_catching_up (RFastForward (with_frame_hash good_ff false) 99 [50]) =
-    (Err, mkNS 1 1000 3 [10; 11] 99 []) /\
+    (Err, mkNS 1 1000 3 [10; 11] 99 [] false) /\
   handle repaired st_catching_up (RFastForward (with_frame_hash good_ff false) 99 [50]) = (Err, st_catching_up).
 Proof. vm_compute. repeat split. Qed.
 
 (* 13. ... and a response that passes the checks but cannot be inserted loses the delivered blocks *)
 Lemma w_reset_not_atomic :
   handle asis st_catching_up (RFastForward (with_insert good_ff false) 99 [50]) =
-    (Err, mkNS 1 1000 3 [] 99 []) /\
+    (Err, mkNS 1 1000 3 [] 99 [] false) /\
   handle repaired st_catching_up (RFastForward (with_insert good_ff false) 99 [50]) = (Err, st_catching_up).
 Proof. vm_compute. repeat split. Qed.
 
@@ -128,13 +129,14 @@ Lemma blocks_unchanged_asis_refuted : ~ blocks_unchanged_statement asis.
 Proof.
   intros H.
   destruct (H st_catching_up (RFastForward (with_frame_hash good_ff false) 99 [50]) Err
-              (mkNS 1 1000 3 [10; 11] 99 [])) as [[_ Ha]|[Ho _]].
+              (mkNS 1 1000 3 [10; 11] 99 [] false)) as [[_ Ha]|[Ho _]].
   - vm_compute; reflexivity.
   - vm_compute in Ha. discriminate Ha.
   - discriminate Ho.
 Qed.
 
 Definition still_serves_statement (fx : fixes) : Prop := forall st c v,
+  ns_locked st = false ->
   is_request v = true ->
   fst (handle fx st v) = Ok tt ->
   fst (handle fx (snd (handle fx st c)) v) = Ok tt.
@@ -152,7 +154,17 @@ Proof. vm_compute. repeat split. Qed.
 
 Lemma still_serves_asis_refuted : ~ still_serves_statement asis.
 Proof.
-  intros H. specialize (H st_babbling poison (CEager good_event []) eq_refl).
+  intros H. specialize (H st_babbling poison (CEager good_event []) eq_refl eq_refl).
   assert (E : fst (handle asis st_babbling (CEager good_event [])) = Ok tt) by (vm_compute; reflexivity).
   specialize (H E). vm_compute in H. discriminate H.
 Qed.
+
+(* 15. the eventDiff-error path: answered with an error, nothing changes, the next valid request is
+       served; what a handler that forgot to release the core lock on that path would cause instead *)
+Lemma w_sync_diff_error :
+  handle asis st_babbling (CSync 10 true) = (Err, st_babbling) /\
+  handle repaired st_suspended (CSync 10 true) = (Err, st_suspended) /\
+  fst (handle repaired (snd (handle repaired st_babbling (CSync 10 true))) (CSync 10 false)) = Ok tt /\
+  fst (handle repaired (leak_lock st_babbling) (CSync 10 false)) = Hang /\
+  fst (handle repaired (leak_lock st_babbling) (CEager good_event [])) = Hang.
+Proof. vm_compute. repeat split. Qed.
